@@ -730,7 +730,15 @@ fn main() {
     quiet_panics();
     check_tables();
     let args: Vec<String> = std::env::args().collect();
-    match args.get(1).map(String::as_str) {
+    // the sub-command may be given as a word or is implied by --cases / --scenarios
+    let mode = if has_flag(&args, "history") || arg(&args, "--cases").is_some() {
+        "history"
+    } else if has_flag(&args, "recover") || arg(&args, "--scenarios").is_some() {
+        "recover"
+    } else {
+        ""
+    };
+    match Some(mode) {
         Some("history") => {
             let cases = arg(&args, "--cases").expect("--cases");
             let ctx = PathBuf::from(arg(&args, "--ctx").expect("--ctx"));
